@@ -109,8 +109,9 @@ def check(R, tier):
             for n, fld in (('root', 'root'), ('timestamp', 'timestamp'), ('snapshot', 'snapshot'), ('targets', 'targets')):
                 d = repo.fields.get((None, F('Repository', fld)))
                 R.obligation(f'Repository::load: Repository.{fld} is the document returned by load_{n}', p.pc, z3.BoolVal(isinstance(d, Adt) and z3.eq(doc_id(d), ids[n])), group='wiring/repo-fields')
-    finalize(R)
+    import props.c02_replay as rp
+    rp.finalize(R, I, 2)
 
-def finalize(R):
-    for cx in R.counterexamples:
-        R.inconclusive.append(f'counterexample for "{cx["obligation"]}": {str(cx.get("scenario") or cx.get("model"))[:400]}')
+def replay_file(R, path):
+    import json
+    sc = json.load(open(path))['scenario']; print(json.dumps(R.replay('history', sc))); return 0
